@@ -1,5 +1,6 @@
 import Driver.Cpu
 import Driver.Mem
+import Driver.Text
 /-
   Driver: one request per line on stdin, one answer per line on stdout.
   Unknown or malformed lines answer `bad` (never a default).
@@ -11,6 +12,8 @@ def handle (line : String) : String :=
   if l.startsWith "run " then handleRun l
   else if l.startsWith "runs " then handleRuns l
   else if l.startsWith "mem " then handleMem l
+  else if l.startsWith "dump " then handleDump l
+  else if l.startsWith "dumpspec " then handleDumpSpec l
   else "bad"
 
 partial def loop (hin : IO.FS.Stream) (hout : IO.FS.Stream) : IO Unit := do
